@@ -409,11 +409,25 @@ impl<M: AlignMarker> Ctx<M> {
                     gm.reactivate();
                 } else {
                     let body = b;
+                    let glocal = circ::verif::local_of(gm).local;
+                    // (sole by the model and by the participant's own count)
+                    let lib_sole = glocal != 0 && unsafe { circ::verif::peek_local(glocal) }.guard_count == 1;
                     let r = std::panic::catch_unwind(std::panic::AssertUnwindSafe(|| {
                         gm.reactivate_after(|| {
                             // inside the closure the receiver does not count as a live guard
                             let ctx = unsafe { &mut *me };
                             ctx.check_pin_state("inside reactivate_after");
+                            if ctx.in_tls && sole && lib_sole {
+                                // the same for a guard of a temporary participant (thread-local
+                                // destruction after the handle is gone): the closure runs outside
+                                // the critical section, so that whatever it waits for can be reclaimed
+                                let p = unsafe { circ::verif::peek_local(glocal) };
+                                sim().probe("reactivate_after_in_tls_destructor");
+                                if p.epoch_word & 1 == 1 {
+                                    let det = format!("inside reactivate_after on the sole guard of a participant used by t{} during thread-local destruction the participant is still pinned (epoch word {:#x}, guard count {})", ctx.tid, p.epoch_word, p.guard_count);
+                                    shadow().soft("C20,C16", "pin-state-mismatch/pinned-inside-reactivate_after-in-tls", det);
+                                }
+                            }
                             match body {
                                 1 => {
                                     sim().fault("panic_closure");
@@ -919,6 +933,11 @@ impl<M: AlignMarker> Ctx<M> {
                     if target.is_some() && ob != target {
                         let det = format!("weak_many::<{}> on #{} returned a pointer to {:?} (null = None)", n, target.unwrap(), ob);
                         sh.soft("C10", if ob.is_none() { "weak_many-returns-null" } else { "weak_many-wrong-target" }, det);
+                    } else if target.is_some() && (ww & sh.tag_mask) != (src_word & sh.tag_mask) {
+                        // "all refer to the receiver": like downgrade() and clone(), the pointers carry
+                        // the receiver's tag (they must compare equal to what downgrade() returns)
+                        let det = format!("weak_many::<{}> on #{} with tag {} returned a pointer with tag {}", n, target.unwrap(), src_word & sh.tag_mask, ww & sh.tag_mask);
+                        sh.soft("C10", "weak_many-wrong-tag", det);
                     }
                 }
                 for w in ws {
